@@ -32,9 +32,18 @@ Definition fault_output (kind : sx) (a : list sx) : option (R bytes) :=
     let? items := omap (item_of_sx 64) a in Some (run_items items)
   else None.
 
+(* the writers' URL tests are decided by the partial URL model *)
+Definition fault_taint (kind : sx) (a : list sx) : bool :=
+  if tag_is kind "bundle" then
+    match a with b :: _ => match bundle_of_sx b with Some b' => b_write_taint b' | None => false end | _ => false end
+  else if tag_is kind "sxg" then
+    match a with [e] => match exchange_of_sx e with Some e' => write_taint e' | None => false end | _ => false end
+  else false.
+
 Definition op_fault (args : list sx) : sx :=
   match args with
   | kind :: SL a :: _ =>
+      if fault_taint kind a then unknown_sx else
       match fault_output kind a with
       | Some r => sx_bytes_R r
       | None => bad_args
@@ -49,6 +58,7 @@ Definition op_fault (args : list sx) : sx :=
 Definition judge_fault (args : list sx) (impl : sx) : bool :=
   match args, impl with
   | kind :: SL a :: SZ k :: _, SL [SB acc; SZ err; SZ cnt] =>
+      if fault_taint kind a then false else
       match fault_output kind a with
       | Some (Ok out) =>
           let kN := Z.to_N k in
